@@ -100,14 +100,15 @@ class CollideGen:
                                'tgt{}'.format(i), name=name, srcs=srcs))
         if rng.random() < 0.35:
             # a submodule reaching out of its directory with ../
-            sub = rng.choice(['mod', 'md', 'm'])
+            sub = rng.choice(['mod', 'md', 'm', 'a', 'aa', 'lib', 'ab', 'sr'])
             inner = []
             cand = ['../' + p for p in rng.sample(pool, min(2, len(pool)))]
             own = '{}.c'.format(rng.choice(STEMS))
             proj.files[os.path.join(sub, own)] = G.c_source(own)
             cand.append(own)
             if rng.random() < 0.5:
-                deep = os.path.join(rng.choice(['shared', 'aa', 'x']),
+                deep = os.path.join(rng.choice(['shared', 'aa', 'x', 'b',
+                                                'bb', 'c', '/aa'.strip('/')]),
                                     rng.choice(STEMS) + '.c')
                 proj.files[os.path.join(sub, deep)] = G.c_source(deep)
                 cand.append(deep)
